@@ -337,3 +337,35 @@ Section Gates.
     do fx <- add_heralds_to_state x (hdz (c_out (g_circ gt)));
     Ok (amp_perm co (g_U gt) (znat fi) (znat fx), amp_factor (znat fi) (znat fx)).
 End Gates.
+
+(* ------------------------------------------------------------------ *)
+(* which textbook matrix each single-qubit class is named after        *)
+(* (T = K*K, i = (0,1), 1/sqrt 2 = (h,0); rotation amplitudes real)    *)
+(* ------------------------------------------------------------------ *)
+Section Names.
+  Context {K : Type} (o : ops K).
+  Let t := cplx o.
+  Let ii : K * K := (k0 o, k1 o).
+  Definition named_sq (h : K) (g : sq) : nat -> nat -> K * K :=
+    let hh := (h, k0 o) in
+    match g with
+    | gI => spec_I t | gH => spec_H t hh | gX => spec_X t | gY => spec_Y t ii | gZ => spec_Z t
+    | gS => spec_S t ii | gSadj => spec_Sadj t ii | gT => spec_T t ii hh | gTadj => spec_Tadj t ii hh
+    | gSX => spec_SX t ii hh
+    end.
+  (* (c, s) = (cos(theta/2), sin(theta/2)); for P: (cos theta, sin theta), e^{i theta} = c + i s *)
+  Definition named_rq (g : rq) (c s : K) : nat -> nat -> K * K :=
+    match g with
+    | gP => spec_P t (c, s)
+    | gRx => spec_Rx t ii (c, k0 o) (s, k0 o)
+    | gRy => spec_Ry t ii (c, k0 o) (s, k0 o)
+    | gRz => spec_Rz t ii (c, k0 o) (s, k0 o)
+    end.
+  (* index of a one-qubit basis state *)
+  Definition idx1 (b : list bool) : nat := if hd false b then 1 else 0.
+End Names.
+
+(* the Fock state on n modes with one photon in mode x and one in mode y, and the
+   choice of the rail of a qubit encoded on the mode pair (m0, m1) *)
+Definition two_photons (n x y : nat) : list nat := incr x (incr y (repeat 0 n)).
+Definition rail (b : bool) (m0 m1 : nat) : nat := if b then m1 else m0.
